@@ -607,7 +607,8 @@ fn check_t2(scn: &Scenario, stats: &mut Stats) -> Vec<Violation> {
         .collect();
     let mut got = split_items.clone();
     for d in &failed {
-        let pos = got.iter().position(|k| k.0 == d.file && k.1 == d.line && k.4 == "Error");
+        let is_include_error = |t: &str| ["IO Error", "File not found", "Cyclic dependency", "Unexpected error"].iter().any(|p| t.starts_with(p));
+        let pos = got.iter().position(|k| k.0 == d.file && k.1 == d.line && k.4 == "Error" && is_include_error(&k.5));
         match pos {
             Some(p) => {
                 got.remove(p);
